@@ -81,6 +81,9 @@ impl ConnectionRunner {
 
         clean_up_data.before_open();
 
+        #[cfg(aquatic_verif)]
+        aquatic_common::verif::probe("ws.socket.connection");
+
         let config = self.config.clone();
         let connection_id = self.connection_id;
 
@@ -101,6 +104,9 @@ impl ConnectionRunner {
         clean_up_data
             .after_close(&config, control_message_senders)
             .await;
+
+        #[cfg(aquatic_verif)]
+        aquatic_common::verif::count("ws.cleanup_done");
 
         ::log::debug!("connection {:?} finished clean up", connection_id);
     }
